@@ -47,8 +47,10 @@ def partition(p):
 
 
 def is_space_fill(g):
+    # in the encoded output the fill must be the *encoded* space (0x40 under EBCDIC): a raw b' ' repeat did not pass
+    # through the codec
     if isinstance(g, Rep):
-        return g.unit in (' ', b' ')
+        return g.unit == ' '
     return isinstance(g, Opq) and isinstance(g.desc, tuple) and g.desc[0] == 'recode-rep' and g.desc[1] == ' '
 
 
@@ -147,7 +149,10 @@ def check(prog, res, tier):
                 fails.append(Failure(f'FIXED/text: value is not left-justified: {segs!r}', neg=[[src.length - 1]]))
             for g in segs[1:]:
                 if not is_space_fill(g):
-                    fails.append(definite(f'FIXED/text: fill is {g!r}, not spaces'))
+                    why = ' (a raw 0x20 byte that did not pass through the text codec: wrong under EBCDIC)' \
+                        if isinstance(g, Rep) and g.unit == b' ' else ''
+                    fails.append(Failure(f'FIXED/text: fill is {g!r}, not the encoded space character{why}',
+                                         neg=[[g.length() - 1]]))
         if pt in ('int', 'long') and vk in ('int', 'str'):
             # zero fill on the left, numeral (or its leading part when too wide)
             for g in segs[:-1]:
